@@ -136,6 +136,11 @@ def make(interp):
         return A.ravel(clipped, dims)
     def unravel_index(k, shape):
         return tuple(A.unravel(k, tuple(shape)))
+    def broadcast_to(x, shape):
+        from ..interp import elem
+        shape = tuple(shape) if isinstance(shape, (tuple, list)) else (shape,)
+        return SArr(shape, lambda idx: elem(x, tuple(idx)))
+    jnp["broadcast_to"] = B(broadcast_to)
     jnp["ravel_multi_index"] = B(ravel_multi_index); jnp["unravel_index"] = B(unravel_index); jnp["argsort"] = B(argsort)
     def product(*ranges):
         """itertools.product: lexicographic order, last factor fastest (assumed library contract)"""
